@@ -286,3 +286,22 @@ pub fn pos_quality_stub(_p: &chia_protocol::ProofOfSpace) -> Option<chia_protoco
 pub fn pk_eq_stub(a: &chia_bls::PublicKey, b: &chia_bls::PublicKey) -> bool {
     pk_bytes(a) == pk_bytes(b)
 }
+
+/// S3 for the tree-hash harnesses: like `sha_finalize`, but on the 24 preimages
+/// 0x01 and 0x01 i (i = 1..23) it returns the constants baked into
+/// clvm_utils::tree_hash::PRECOMPUTED_HASHES, as the real SHA-256 does (that the table
+/// holds the real digests is checked separately against the real compression function /
+/// stated as an assumption, see registry C17).
+pub fn sha_finalize_precomputed(_s: Sha256) -> [u8; 32] {
+    unsafe {
+        G.rec_finalized += 1;
+        if G.rec_len == 1 && G.rec[0] == 1 {
+            return clvm_utils::PRECOMPUTED_HASHES[0].to_bytes();
+        }
+        if G.rec_len == 2 && G.rec[0] == 1 && G.rec[1] >= 1 && G.rec[1] < 24 {
+            return clvm_utils::PRECOMPUTED_HASHES[G.rec[1] as usize].to_bytes();
+        }
+        let n = if G.rec_len < REC_CAP { G.rec_len } else { REC_CAP };
+        model_digest(&G.rec, n)
+    }
+}
